@@ -29,7 +29,8 @@ func checkExternal(v map[string]any, p tree.Path) error {
 	if !ok {
 		return nil
 	}
-	if !b.(bool) {
+	if external, ok := b.(bool); !ok || !external {
+		// not a boolean (interpolation, which casts the text form, was skipped): left to the decoding of the model
 		return nil
 	}
 
